@@ -91,12 +91,23 @@ impl World {
 
     /// An unexpected (not injected) panic inside a cache operation.
     pub fn unexpected_panic(&mut self, name: &str, msg: &str) {
-        let tags = if msg.contains("overflow") {
+        let mut tags = if msg.contains("overflow") {
             vec!["C02", "C01"]
         }
         else {
             vec!["C07", "C04"]
         };
+        // a documented-total operation that panics also breaks its own contract
+        match name {
+            "insert" | "try_insert" => tags.push("C10"),
+            "mutate" => tags.push("C11"),
+            "retain" => tags.push("C15"),
+            "clone" => tags.push("C14"),
+            "reserve" | "try_reserve" | "shrink_to" | "shrink_to_fit" => tags.push("C13"),
+            "iterwalk" => tags.push("C12"),
+            "set_max_size" => tags.push("C03"),
+            _ => { },
+        }
         self.fail(tags, format!("panic:{}", name), format!("{} panicked: {}", name, msg));
     }
 
@@ -173,7 +184,17 @@ impl World {
         self.collect_vios(info.name);
         let obs = match self.observe(level) {
             Some(o) => o,
-            None => return,
+            None => {
+                // the list cannot be traversed; the table still answers lookups
+                if let (true, Some(sub), false) = (info.evicting, info.subject, info.subject_rejected) {
+                    let q = TKey::new(sub, 0);
+                    let there = self.side().cache().contains(&q);
+                    drop(q);
+                    ck!(self, there, ["C03"], format!("subject-evicted:{}", info.name),
+                        "{} evicted the very entry {} it inserted/mutated", info.name, sub);
+                }
+                return;
+            },
         };
         let fp = self.side().cache().verif_fingerprint();
         let tid = self.side().cache().verif_table_identity();
